@@ -322,7 +322,10 @@ def process_chunk(task):
             res.counters['real:' + (ra[0] if ra[0] != 'err' else ra[1])] += 1
         else:
             res.counters['real:' + str(ra)] += 1
-        pr, pm = proj(ra), proj(ma)
+        if r[0].startswith('rt:'):
+            pr = pm = None          # runtime-only request: nothing to compare with the model
+        else:
+            pr, pm = proj(ra), proj(ma)
         nontriv = not (isinstance(ra, tuple) and ra[0] == 'ok' and isinstance(ra[1], tuple) and len(ra[1]) == 0)
         if nontriv:
             res.distinct.add(hash(lines[res.n - 1]))
